@@ -286,11 +286,13 @@ class Screen(BaseScreen, RealTerminal):
         self._wait_for_input_ready(self._next_timeout)
         keys, raw = self.parse_input(None, None, self.get_available_raw_input())
 
-        if self._partial_codes:
+        while self._partial_codes:
             # an incomplete sequence and no event loop to set an alarm on: give the rest complete_wait
-            # to arrive here, then decode what there is as it stands
+            # to arrive here; decode what there is as it stands only when nothing more came
+            pending = len(self._partial_codes)
             self._wait_for_input_ready(self.complete_wait)
-            new_keys, new_raw = self.parse_input(None, None, self.get_available_raw_input(), wait_for_more=False)
+            codes = self.get_available_raw_input()
+            new_keys, new_raw = self.parse_input(None, None, codes, wait_for_more=len(codes) > pending)
             keys += new_keys
             raw += new_raw
 
